@@ -1,6 +1,7 @@
 import AgModel.Props.C01
 import AgModel.Props.C05
 import AgModel.Proofs.ClusterStake
+import AgModel.Proofs.ClusterReady
 /-!
 # C01 — refinement: a cluster of executable model nodes produces a history that obeys the voting rules
 
@@ -364,5 +365,112 @@ theorem cluster_agreement_partial (c : Cfg) (evs : List Ev) (hv : Valid c (init 
   | some x =>
     exfalso
     exact finalized_not_skipped hS b f1 ((cluster_certs_sound c evs hv hpos k b.slot st hg).2.2.1 x hsk)
+
+/-! ## discharging `ReadyJustified`: induction along the run -/
+
+theorem snoc_induction {α : Type} (P : List α → Prop) (h0 : P []) (hs : ∀ l a, P l → P (l ++ [a])) : ∀ l, P l := by
+  have : ∀ l : List α, P l.reverse := by
+    intro l
+    induction l with
+    | nil => exact h0
+    | cons a t ih => rw [List.reverse_cons]; exact hs _ a ih
+  intro l
+  have := this l.reverse
+  rwa [List.reverse_reverse] at this
+
+theorem byzAll (c : Cfg) (s : State) : ByzAll (histOf c s) (byz c) := by
+  intro v hv b hc
+  unfold byz at hv
+  rw [hv] at hc
+  cases hc
+
+/-- the weak justification of a `ParentReady` event (certified *or in the finalized log*; skip-certified *or a gap*) is the
+    strong one when the safety hypotheses hold for the history -/
+theorem strong_of_weak (c : Cfg) (s : State) (hS : Setting (stakeFn c) (chainOf c) (histOf c s) (byz c)) (w ps ph : ℕ)
+    (h : ParentReady.ReadyP (tpOf c s).CP (tpOf c s).SP w (ps, ph)) :
+    ps < w ∧ Certified (stakeFn c) (chainOf c) (histOf c s) (Blk.mk' ps ph) ∧
+    ∀ t, ps < t → t < w → SkipCert (stakeFn c) (histOf c s) t := by
+  obtain ⟨h1, h2, h3⟩ := h
+  refine ⟨h1, ?_, ?_⟩
+  · rcases h2 with a | a
+    · exact a
+    · exact certified_of_inLog hS (byzAll c s) _ a
+  · intro t ht1 ht2
+    rcases h3 t ht1 ht2 with a | a
+    · exact a
+    · exact skip_of_gap hS (byzAll c s) t a
+
+/-- **Every `ParentReady` event a correct Votor handles in a valid run is justified on the derived history** (the parent is
+    in an earlier slot and certified, every slot in between is skip-certified), although the implementation also derives
+    such events from finalizations: by induction along the run, with the safety hypotheses for the prefix. -/
+theorem ready_justified (c : Cfg) (hb : 5 * w (stakeFn c) (byz c) < total (stakeFn c)) :
+    ∀ evs, Valid c (init c) evs → ReadyJustified c evs := by
+  have hpos := pos_of_byz c hb
+  apply snoc_induction
+  · intro _ v _ w ps ph hm
+    simp only [run, init, Votor.init, List.mem_singleton] at hm
+    cases hm
+  · intro pre ev ih hv
+    rw [valid_append] at hv
+    obtain ⟨hvp, hve, _⟩ := hv
+    have ihp := ih hvp
+    have hS := cluster_setting_partial c pre hvp hb ihp
+    have hR : RInv c (run (init c) pre) := (RInv.init c).run hpos pre (CInv.init c) hvp
+    have hrun : run (init c) (pre ++ [ev]) = step (run (init c) pre) ev := by rw [run_append]; rfl
+    have hl := histOf_le_step c (run (init c) pre) ev
+    intro v hc w ps ph hm
+    rw [hrun] at hm ⊢
+    -- justified on the history of the prefix
+    have hold : ps < w ∧ Certified (stakeFn c) (chainOf c) (histOf c (run (init c) pre)) (Blk.mk' ps ph) ∧
+        ∀ t, ps < t → t < w → SkipCert (stakeFn c) (histOf c (run (init c) pre)) t := by
+      obtain ⟨i, op⟩ := ev
+      by_cases hvi : v.val = i
+      · subst hvi
+        rw [step_self] at hm
+        rcases nodeStep_parentReady _ op w ps ph hm with h | h
+        · exact ihp v hc w ps ph h
+        · exact strong_of_weak c _ hS w ps ph ((hR v.val).2 _ h)
+      · rw [step_other _ _ _ _ hvi] at hm
+        exact ihp v hc w ps ph hm
+    exact ⟨hold.1, Certified.mono hl hold.2.1, fun t a b => SkipCert.mono hl (hold.2.2 t a b)⟩
+
+/-- **`cluster_rules`: in every valid run of the cluster the derived history satisfies all voting rules R1–R5 of
+    `Spec.Rules` for every correct validator** — for every number of validators and stake distribution, every Byzantine set
+    with less than 20 % of the stake, every run (every interleaving of deliveries of votes, certificates and blocks to
+    pools and Votors, queue pumps and timeouts at all nodes; arbitrary delay, loss, duplication, reordering; arbitrary
+    votes and backed certificates naming Byzantine signers; equivocating leaders), restricted only by unforgeability and
+    "the hash binds the parent" (`Valid`). -/
+theorem cluster_rules (c : Cfg) (evs : List Ev) (hv : Valid c (init c) evs)
+    (hb : 5 * w (stakeFn c) (byz c) < total (stakeFn c)) (v : Fin c.n) (hc : c.correct v.val = true) :
+    Rules (stakeFn c) (chainOf c) (histOf c (run (init c) evs)) v :=
+  cluster_rules_partial c evs hv (pos_of_byz c hb) (ready_justified c hb evs hv) v hc
+
+/-- the hypotheses of the protocol-level safety theorems (`Props/C01.lean`) hold for the derived history of every valid run -/
+theorem cluster_setting (c : Cfg) (evs : List Ev) (hv : Valid c (init c) evs)
+    (hb : 5 * w (stakeFn c) (byz c) < total (stakeFn c)) :
+    Setting (stakeFn c) (chainOf c) (histOf c (run (init c) evs)) (byz c) :=
+  cluster_setting_partial c evs hv hb (ready_justified c hb evs hv)
+
+/-- **`cluster_agreement`: finalization agreement for the cluster of executable model nodes.** With less than 20 % of the stake
+    Byzantine, in every valid run — whatever the network and the Byzantine validators do — if the pools of two nodes `i`, `j`
+    report blocks `b`, `b'` as finalized (a fast-finalization certificate, or a finalization certificate together with a
+    notarization certificate: `PoolImpl::get_final_certs`), then `b` and `b'` lie on one chain of the block tree; if they are
+    in the same slot they are equal; and no pool of the cluster holds a skip certificate for `b`'s slot. -/
+theorem cluster_agreement (c : Cfg) (evs : List Ev) (hv : Valid c (init c) evs)
+    (hb : 5 * w (stakeFn c) (byz c) < total (stakeFn c))
+    (i j : ℕ) (b b' : Blk) (hf : PoolFinalized (run (init c) evs) i b) (hf' : PoolFinalized (run (init c) evs) j b') :
+    (Anc (chainOf c) b b' ∨ Anc (chainOf c) b' b) ∧ (b.slot = b'.slot → b = b') ∧
+    (∀ k st, (run (init c) evs k).pool.getSlot b.slot = some st → st.cSkip = none) :=
+  cluster_agreement_partial c evs hv hb (ready_justified c hb evs hv) i j b b' hf hf'
+
+/-- all blocks the pools report finalized, and their ancestors, lie on one chain (the finalization logs never conflict) -/
+theorem cluster_logs_one_chain (c : Cfg) (evs : List Ev) (hv : Valid c (init c) evs)
+    (hb : 5 * w (stakeFn c) (byz c) < total (stakeFn c))
+    (i j : ℕ) (b b' x y : Blk) (hf : PoolFinalized (run (init c) evs) i b) (hf' : PoolFinalized (run (init c) evs) j b')
+    (hx : Anc (chainOf c) x b) (hy : Anc (chainOf c) y b') :
+    (Anc (chainOf c) x y ∨ Anc (chainOf c) y x) ∧ (x.slot = y.slot → x = y) := by
+  have hS := cluster_setting c evs hv hb
+  have hpos := pos_of_byz c hb
+  exact logs_one_chain hS x y ⟨b, finalizedAt_of_pool c evs hv hpos i b hf, hx⟩ ⟨b', finalizedAt_of_pool c evs hv hpos j b' hf', hy⟩
 
 end AgModel.Cluster
